@@ -59,6 +59,8 @@ INPUTS = {
     "E": [],
     "F": ["C>>C", "C>>C"],  # identical rows: with batch_size 1 the same key twice in one run
     "G": ["C>>C", "CCO>>CC=O"],  # same first row as A and F
+    "H": ["C=CC>>CC", "CCOCC>>CCO", "C>>C"],  # the rows of B in another order: another batch, another entry
+    "I": ["CCO>>CC=O", "C>>C"],  # the rows of G in another order
 }
 BATCH_SIZES = [None, 1, 2]
 FORMS = ["str", "dict"]
@@ -632,6 +634,8 @@ REGRESSION = {
     "threshold-per-batch": [R(0, "B", 1), R(2, "B", 1), R(1, "B", 2), R(2, "B", 2)],
     # thresholds closer than the printed resolution of a confidence are still different configurations
     "threshold-within-rounding": [R(5, "B"), R(6, "B"), R(5, "B"), R(6, "B", 1), R(5, "B", 1)],
+    # a batch is a sequence: the same rows in another order are another batch
+    "same-rows-other-order": [R(0, "B"), R(0, "H"), R(0, "G"), R(0, "I"), R(0, "H", 2), R(0, "B", 2)],
     "column-names": [R(0, "A"), R(3, "A"), R(4, "A"), R(3, "A", form="dict"), R(0, "A", form="dict")],
     # f8ec0af: a truncated entry made the next run raise JSONDecodeError
     "truncated-entry": [R(0, "A"), T(0, "A", 0, "half"), R(0, "A"), R(0, "A")],
